@@ -134,10 +134,78 @@ def inlinable(prog, f, t):
     return h
 
 
+COMBINATORS = {
+    # (adt, method) -> (variant that carries the payload, its index, the other variant, its index, wrap result?)
+    ("core::result::Result", "and_then"): ("Ok", 0, "Err", 1, False),
+    ("core::result::Result", "map"): ("Ok", 0, "Err", 1, True),
+    ("core::option::Option", "and_then"): ("Some", 1, "None", 0, False),
+    ("core::option::Option", "map"): ("Some", 1, "None", 0, True),
+}
+
+
+def desugar_combinators(prog, f):
+    """`r.and_then(helper)` / `r.map(helper)` with a private function item as the argument is the match it
+    stands for: `match r { Ok(v) => helper(v), Err(e) => Err(e) }` (resp. `Ok(helper(v))`).  Written out as
+    blocks so that the helper call is an ordinary call site (spliced like any other)."""
+    todo = []
+    for bi, t in f.calls():
+        c = callee_of(t) or {}
+        if f.is_cleanup(bi) or "t" not in t or len(t["a"]) != 2 or c.get("krate") != "core":
+            continue
+        adt = next((a_ for (a_, m_) in COMBINATORS if m_ == c.get("name") and str(c.get("def", "")).startswith(a_)), None)
+        if adt is None or t["a"][1][0] != "k" or not t["a"][1][1].get("fn"):
+            continue
+        rl = ir.op_place(t["a"][0])
+        if not rl or len(rl) != 1:
+            continue
+        fake = {"k": "call", "f": ["k", {"fn": t["a"][1][1]["fn"]}], "a": [["mv", [0]]], "t": t["t"], "dest": t["dest"], "sp": t["sp"]}
+        if inlinable(prog, f, fake) is None:
+            continue
+        todo.append((bi, adt, c["name"], t["a"][1][1]["fn"], rl[0]))
+    if not todo:
+        return f
+    raw = copy.deepcopy({k: v for k, v in f.raw.items()})
+    mir = raw["mir"]
+    for b in mir["blocks"]:
+        b["t"].pop("_bb", None)
+        for s_ in b["s"]:
+            s_.pop("_pos", None)
+    for bi, adt, meth, fn, r in todo:
+        some, some_i, none, none_i, wrap = COMBINATORS[(adt, meth)]
+        call = mir["blocks"][bi]["t"]
+        sp, cont, dest = call["sp"], call["t"], call["dest"]
+        h = prog.funcs[fn.get("rdef") or fn["def"]]
+        n = len(mir["locals"])
+        d_l, v_l, e_l, o_l = n, n + 1, n + 2, n + 3
+        mir["locals"] += [{"ty": "isize"}, {"ty": h.local_ty(1)}, {"ty": "?"}, {"ty": h.raw.get("ret", "?")}]
+        nb = len(mir["blocks"])
+        b_some, b_none, b_unr, b_wrap = nb, nb + 1, nb + 2, nb + 3
+        full = mir["locals"][dest[0]].get("ty", adt) if len(dest) == 1 else adt
+        mir["blocks"][bi]["s"].append({"k": "assign", "p": [d_l], "rv": ["discr", [r]], "sp": sp})
+        mir["blocks"][bi]["t"] = {"k": "switch", "d": ["mv", [d_l]], "dty": "isize", "arms": [[str(some_i), b_some], [str(none_i), b_none]],
+                                  "else": b_unr, "sp": sp}
+        payload = [r, "@%d:%s" % (some_i, some), ".0:0"]
+        mir["blocks"].append({"s": [{"k": "assign", "p": [v_l], "rv": ["use", ["mv", payload]], "sp": sp}],
+                              "t": {"k": "call", "f": ["k", {"fn": fn}], "a": [["mv", [v_l]]], "dest": [o_l] if wrap else dest,
+                                    "t": b_wrap if wrap else cont, "sp": sp}})
+        if none == "Err":
+            stm = [{"k": "assign", "p": [e_l], "rv": ["use", ["mv", [r, "@%d:%s" % (none_i, none), ".0:0"]]], "sp": sp},
+                   {"k": "assign", "p": dest, "rv": ["agg", {"k": "adt", "adt": adt, "full": full, "variant": "Err", "vi": none_i}, [["mv", [e_l]]]], "sp": sp}]
+        else:
+            stm = [{"k": "assign", "p": dest, "rv": ["agg", {"k": "adt", "adt": adt, "full": full, "variant": "None", "vi": none_i}, []], "sp": sp}]
+        mir["blocks"].append({"s": stm, "t": {"k": "goto", "t": cont, "sp": sp}})
+        mir["blocks"].append({"s": [], "t": {"k": "unreachable", "sp": sp}})
+        mir["blocks"].append({"s": [{"k": "assign", "p": dest, "rv": ["agg", {"k": "adt", "adt": adt, "full": full, "variant": some, "vi": some_i}, [["mv", [o_l]]]], "sp": sp}],
+                              "t": {"k": "goto", "t": cont, "sp": sp}})
+    nf = ir.Func(raw, prog)
+    return nf
+
+
 def inline_helpers(prog, f, depth=2):
     """returns f itself if nothing is inlinable, else a new Func with helpers spliced in."""
     if depth <= 0 or not f.blocks:
         return f
+    f = desugar_combinators(prog, f)
     sites = [(bi, t, inlinable(prog, f, t)) for bi, t in f.calls() if not f.is_cleanup(bi)]
     sites = [(bi, t, h) for bi, t, h in sites if h is not None]
     if not sites:
